@@ -981,6 +981,15 @@ static void run_script(FILE* in) {
             api_call(true);
             /* the output must be terminated inside the caller's buffer and must not spill over */
             size_t slen = strnlen(g_str_out_area[0], sizeof g_str_out_area[0]);
+            {   /* the phrase text, composed as returned and decomposed as assembled internally, must not linger */
+                static TLS uint8_t txt[2 * POLYSEED_STR_SIZE + 8];
+                size_t n = slen < sizeof g_str_out_area[0] ? slen : sizeof g_str_out_area[0] - 1;
+                memcpy(txt, g_str_out_area[0], n); txt[n] = 0;
+                needles_text(txt, n);
+                utf8proc_uint8_t* dec = utf8proc_NFKD(txt);
+                if (dec) { needles_text(dec, strlen((char*)dec)); free(dec); }
+                scan_stack();
+            }
             bool spill = false;
             for (size_t i = 0; i < sizeof g_str_out_area[1]; ++i) if ((uint8_t)g_str_out_area[1][i] != 0xEE) spill = true;
             flush_queue();
